@@ -122,6 +122,19 @@ def handle (op : String) (j : Json) : Except String Json := do
     let ib := Json.arr ((ds.map (intervalOf Gen.C16.consumes)).map ivJ).toArray
     let sv := Json.arr ((recs.map (specInterval names)).map ivJ).toArray
     pure (reply (Json.mkObj [("buf", ib), ("fn", iv)]) (some (Json.mkObj [("buf", sv), ("fn", sv)])))
+  | "session" =>
+    -- one open writer, several calls: ["ok", positions] delivers the selected records' bytes, ["refused"] raises after the header step
+    let steps ← getArr j "steps"
+    let calls ← steps.mapM (fun st => do
+      let a ← st.getArr?
+      let kind ← (a.getD 0 Json.null).getStr?
+      match kind with
+      | "ok" => do
+        let idx ← asNatList (a.getD 1 Json.null)
+        pure (some (selectBytes (addNewline body) idx))
+      | _ => pure (none : Option Bytes))
+    let out := writerSession (headerBytes (gunzip members)) calls
+    pure (reply (Json.mkObj [("file", bhash (gunzip out))]) none)
   | "write" =>
     let mode ← getStr j "mode"
     let out ← if mode == "chunks" then do
